@@ -16,10 +16,16 @@ def _alarm(signum, frame):
 
 
 def run_case(execute, case, opts):
+    import numpy as np
     signal.signal(signal.SIGALRM, _alarm)
     signal.alarm(CASE_TIMEOUT)
+    err0 = np.geterr()
     try:
-        return execute(case, opts)
+        out = execute(case, opts)
+        if np.geterr() != err0:                  # the library is a guest in the process: numpy's global error state is not its to change
+            np.seterr(**err0)
+            return ["mutated", "numpy's global error state (np.seterr) was changed by the call"]
+        return out
     except _Timeout:
         return ["noreturn"]
     finally:
